@@ -29,11 +29,24 @@ func emptyTarget() *GT {
 // C04 (projection / skip exactness).  Both use spec-side generated (schema,
 // datum, writer choices) triples encoded by the harness's own spec encoder.
 func runReaderProps(r *Run, prop string) {
+	if prop == "C03" {
+		bigRegularBlock(r)
+	}
 	n := r.N(260, 6000)
+	fam := readerFamily()
 	for i := 0; i < n; i++ {
 		s := genSchema(r.Rng, SchemaGenCfg{MaxDepth: 1 + r.Rng.Intn(4)})
 		d := genDatum(r.Rng, s)
+		if i < len(fam) {
+			// fixed shapes first: collections of zero-width items with counts above the
+			// bytes that follow, long map keys, values at varint length boundaries
+			s, d = fam[i].s, fam[i].d
+			r.Count("family")
+		}
 		ch := genChoice(r.Rng, s, d)
+		if i < len(fam) && i%2 == 0 {
+			ch = &Choice{} // one unsized block per collection
+		}
 		enc := encodeDatum(s, d, ch)
 		tail := make([]byte, r.Rng.Intn(3))
 		r.Rng.Read(tail)
@@ -177,7 +190,12 @@ func readerFileCase(r *Run, s avro.Schema, d *Datum, ch *Choice, g *GT) {
 		}()
 		var out any = reflect.New(g.RType()).Elem().Interface()
 		if repetitive || len(file)%2 == 0 {
-			out = reflect.New(g.RType()).Interface() // a pointer to the caller's own struct
+			// a pointer to the caller's own struct, still holding what an earlier use left there
+			dst := reflect.New(g.RType())
+			if allFit && len(wants) > 0 {
+				dst.Elem().Set(wants[len(wants)-1])
+			}
+			out = dst.Interface()
 		}
 		err = avro.ReadFile(bytes.NewReader(file), out, func(val unsafe.Pointer, rb *avro.ResourceBank) error {
 			v := reflect.New(g.RType()).Elem()
@@ -232,4 +250,99 @@ func classifyFilePanic(s avro.Schema, g *GT, ct *Container) string {
 		return "map-value-new-nil"
 	}
 	return "readfile-panic"
+}
+
+type famCase struct {
+	s avro.Schema
+	d *Datum
+}
+
+// readerFamily: record{z: <collection>, tail: long} for collections whose skipping has
+// its own code paths.  Targets are chosen by compatTarget as for every other case, which
+// drops fields at random; emptyTarget (C04) skips everything.
+func readerFamily() []famCase {
+	rec := func(name string, fields ...avro.SchemaRecordField) avro.Schema {
+		return avro.Schema{Type: "record", Object: &avro.SchemaObject{Name: name, Fields: fields}}
+	}
+	arr := func(it avro.Schema) avro.Schema {
+		return avro.Schema{Type: "array", Object: &avro.SchemaObject{Items: it}}
+	}
+	mp := func(v avro.Schema) avro.Schema {
+		return avro.Schema{Type: "map", Object: &avro.SchemaObject{Values: v}}
+	}
+	long := func(v int64) *Datum { return &Datum{K: "long", I: v} }
+	var out []famCase
+	empty := rec("Empty")
+	for _, n := range []int{1, 2, 5, 17, 64, 300} {
+		for _, it := range []struct {
+			s avro.Schema
+			d func() *Datum
+		}{{prim("null"), func() *Datum { return &Datum{K: "null"} }}, {empty, func() *Datum { return &Datum{K: "record"} }}} {
+			items := make([]*Datum, n)
+			for k := range items {
+				items[k] = it.d()
+			}
+			s := rec("Fam", avro.SchemaRecordField{Name: "z", Type: arr(it.s)}, avro.SchemaRecordField{Name: "tail", Type: prim("long")})
+			out = append(out, famCase{s, &Datum{K: "record", Items: []*Datum{{K: "array", Items: items}, long(int64(n))}}})
+		}
+	}
+	for _, kl := range []int{63, 64, 65, 100, 127, 128, 129, 300, 8191, 8192} {
+		key := bytes.Repeat([]byte{'k'}, kl)
+		key[0], key[kl-1] = 'a', 'z'
+		s := rec("FamM", avro.SchemaRecordField{Name: "m", Type: mp(prim("string"))}, avro.SchemaRecordField{Name: "tail", Type: prim("string")})
+		d := &Datum{K: "record", Items: []*Datum{
+			{K: "map", Keys: [][]byte{key, []byte("k2")}, Items: []*Datum{{K: "string", Bytes: []byte("v1")}, {K: "string", Bytes: bytes.Repeat([]byte{'v'}, kl)}}},
+			{K: "string", Bytes: []byte("good")}}}
+		out = append(out, famCase{s, d})
+	}
+	for _, v := range []int64{63, 64, -64, -65, 8191, 8192, -8192, -8193, 1 << 20, 1<<20 - 1, 1 << 27, 1 << 34, 1 << 41, 1 << 48, 1 << 55, 1 << 62, -(1 << 62)} {
+		items := []*Datum{long(v), long(v - 1), long(-v)}
+		s := rec("FamV", avro.SchemaRecordField{Name: "a", Type: arr(prim("long"))}, avro.SchemaRecordField{Name: "tail", Type: prim("long")})
+		out = append(out, famCase{s, &Datum{K: "record", Items: []*Datum{{K: "array", Items: items}, long(v)}}})
+	}
+	return out
+}
+
+// bigRegularBlock: one block of more than a million identical one-byte records (a sparse
+// table of all-null rows): deflate stores it at about 1030:1, snappy at about 20:1.  A
+// legal file whatever the ratio.
+func bigRegularBlock(r *Run) {
+	type row struct {
+		A *int64 `json:"a"`
+	}
+	s := avro.Schema{Type: "record", Object: &avro.SchemaObject{Name: "row", Fields: []avro.SchemaRecordField{
+		{Name: "a", Type: avro.Schema{Type: "union", Union: []avro.Schema{prim("null"), prim("long")}}}}}}
+	n := 1100000 + r.Rng.Intn(200000)
+	payload := make([]byte, n) // n times the null selector
+	for _, codec := range []string{"deflate", "snappy", "null"} {
+		ct := &Container{SchemaJSON: []byte(schemaJSON(s)), Codec: codec, Sync: randSync(r.Rng),
+			Blocks: []CBlock{{Count: int64(n), Payload: payload}, {Count: 2, Payload: []byte{2, 14, 0}}}}
+		file := ct.Bytes(false)
+		got, nonNull := 0, 0
+		err := func() (err error) {
+			defer func() {
+				if p := recover(); p != nil {
+					err = fmt.Errorf("PANIC: %v", p)
+				}
+			}()
+			return avro.ReadFile(bytes.NewReader(file), row{}, func(val unsafe.Pointer, rb *avro.ResourceBank) error {
+				if (*row)(val).A != nil {
+					nonNull++
+				}
+				got++
+				rb.Close()
+				return nil
+			})
+		}()
+		desc := map[string]any{"kind": "big-regular-block", "codec": codec, "records": n + 2, "stored_bytes": len(file)}
+		r.Count("big-regular-block/" + codec)
+		switch {
+		case isPanicErr(err):
+			r.Fail(-1, "readfile-panic", "ReadFile panics on a legal file: "+err.Error(), desc)
+		case err != nil:
+			r.Fail(-1, "legal-file-rejected", "ReadFile rejects a legal file with one very regular block: "+err.Error(), desc)
+		case got != n+2 || nonNull != 1:
+			r.Fail(-1, "file-record-count", fmt.Sprintf("ReadFile delivered %d records (%d non-null), the file holds %d (1 non-null)", got, nonNull, n+2), desc)
+		}
+	}
 }
